@@ -170,7 +170,9 @@ func (pd *perRawBitData) appendBitString(bytes []byte, bitsLength uint64, extens
 	}
 
 	if ub > 65535 {
+		// X.691 10.9.3.3: the length is a semi-constrained count, the lower bound is not subtracted
 		sizeRange = -1
+		lb = 0
 	}
 	sizes := (bitsLength + 7) >> 3
 	shift := (8 - bitsLength&0x7)
